@@ -103,6 +103,43 @@ pub fn run(ctx: &Ctx, rep: &Report) {
             sweep_tow(ctx, rep, 604_800_000, |i| i * 1_000_000 + off, &format!("tow:week-1ms-grid+{off}"));
         }
     }
+    // (c') since_gps_week_to_unix_s (what the SeRo receiver stamps its receptions with): the Unix time of a GPS time of
+    // week in the CURRENT week. It reads the clock, so it can be explored at this moment only: for every t of a grid over
+    // the week the result minus t must be one week start that satisfies the week clause for a "now" between the clock
+    // readings taken before and after the call.
+    {
+        use rs1090::decode::time::since_gps_week_to_unix_s;
+        let unix_now = || std::time::SystemTime::now().duration_since(std::time::UNIX_EPOCH).map(|d| d.as_secs()).unwrap_or(0);
+        let mut n = 0u64;
+        let step = if thorough { 1_000_003u64 } else { 97_000_007 };
+        let mut t = 0u64;
+        while t < 604_800_000_000_000 {
+            for tt in [t, t + 17_999_999_999, t + 18_000_000_000] {
+                if tt >= 604_800_000_000_000 {
+                    continue;
+                }
+                n += 1;
+                let before = unix_now();
+                let got = guarded(|| since_gps_week_to_unix_s(tt));
+                let after = unix_now();
+                match got {
+                    Err(p) => rep.violation("unix:panic", format!("since_gps_week_to_unix_s({tt}) panicked: {p}"), json!({"kind":"unix","t":tt})),
+                    Ok(v) => {
+                        let w = v - tt as f64 * 1e-9;
+                        let wr = w.round();
+                        let ok_boundary = (w - wr).abs() < 1e-3 && ((wr as i128 - GPS_EPOCH as i128 + 18).rem_euclid(604_800)) == 0;
+                        let ok_range = wr as i128 <= after as i128 && (before as i128 - wr as i128) < 604_800 + 1;
+                        if !v.is_finite() || !ok_boundary || !ok_range {
+                            rep.violation("unix:value", format!("since_gps_week_to_unix_s({tt}) = {v} at Unix time {before}: minus the argument this is {w}, which is not the start of the current GPS week"), json!({"kind":"unix","t":tt}));
+                        }
+                    }
+                }
+            }
+            t += step;
+        }
+        rep.eval(n);
+        rep.part("unix: time of week -> Unix time at the present moment", n, json!({}));
+    }
     // (d) gps_week_in_s
     let end: u64 = 4_102_444_800; // 2100-01-01
     let weeks = std::sync::Mutex::new(std::collections::BTreeSet::<u64>::new());
@@ -172,6 +209,20 @@ pub fn replay(w: &Value, rep: &Report) {
             let t = w["t"].as_u64().unwrap();
             if let Some((c, what)) = check_tow(t) {
                 rep.violation(&c, what, w.clone());
+            }
+        }
+        Some("unix") => {
+            // (depends on the clock by nature: evaluated again at the present moment)
+            let tt = w["t"].as_u64().unwrap_or(0);
+            let now = std::time::SystemTime::now().duration_since(std::time::UNIX_EPOCH).map(|d| d.as_secs()).unwrap_or(0);
+            match guarded(|| rs1090::decode::time::since_gps_week_to_unix_s(tt)) {
+                Err(p) => rep.violation("unix:panic", format!("since_gps_week_to_unix_s({tt}) panicked: {p}"), w.clone()),
+                Ok(v) => {
+                    let ws = (v - tt as f64 * 1e-9).round() as i128;
+                    if (ws - GPS_EPOCH as i128 + 18).rem_euclid(604_800) != 0 || ws > now as i128 + 1 || now as i128 - ws > 604_801 {
+                        rep.violation("unix:value", format!("since_gps_week_to_unix_s({tt}) = {v} at Unix time {now}"), w.clone());
+                    }
+                }
             }
         }
         Some("week") => {
